@@ -317,8 +317,12 @@ def run_scenarios(scenarios, exe, drv, workdir, tag, nworkers=None, env=None):
         t.join()
     # a call that did not come back is re-run once, alone and with a long timeout, before it counts as blocked
     d = Driver(exe, env)
+    reruns = 0
     for i, res in enumerate(results):
         if res["status"] == "ok":
+            continue
+        reruns += 1
+        if reruns > 8:          # many calls do not come back: the first eight are enough to tell, the run must stay bounded
             continue
         scn = scenarios[i]
         pc = peerlib.PeerCase(scn["sessions"], scn["cfg"]["tlsver"])
